@@ -69,6 +69,7 @@ def parseTies (s : String) : Option (List Bool) :=
 def entryStr : Entry → String
   | .start b => s!"S{b}"
   | .arrive b => s!"V{b}"
+  | .refused b => s!"X{b}"
   | .handle b v k => s!"E{b}={v.render}@{k}"
   | .restore b => s!"P{b}"
   | .async b u t => s!"A{b}" ++ (if u then "u" else "i") ++ (if t > 0 then "+" else "0")
